@@ -502,21 +502,27 @@ FixCRow(row, prows, nn) ==
          IN [f |-> f, n |-> n, a |-> a]
 PVals == {NoP, 0} \cup UVals
 Mix(from, draw, mask) == [k \in DOMAIN from |-> IF mask[k] = 1 THEN draw[k] ELSE from[k]]     \* a third of the keys are redrawn
+\* child rows: a third redrawn, a third changed in ONE cell (so that the two sides often change different cells of one row)
+MixC(from, draw, mask, col) ==
+    [k \in DOMAIN from |-> IF mask[k] = 1 THEN draw[k]
+                           ELSE IF mask[k] = 2 /\ from[k] # NoC /\ draw[k] # NoC THEN [from[k] EXCEPT ![col[k]] = draw[k][col[k]]]
+                           ELSE from[k]]
 MkRoot(pr, cr, nn) == [p |-> [rows |-> pr, art |-> {}], c |-> [rows |-> cr, art |-> {}, nn |-> nn]]
 RandomSetup ==
     /\ InitMode = "random" /\ ops = -1
     /\ \E bpf \in {RE([PKeys -> PVals])}, lpf \in {RE([PKeys -> PVals])}, rpf \in {RE([PKeys -> PVals])} :
        \E bcf \in {RE([CKeys -> {NoC} \cup CRows])}, lcf \in {RE([CKeys -> {NoC} \cup CRows])}, rcf \in {RE([CKeys -> {NoC} \cup CRows])} :
        \E lpm \in {RE([PKeys -> 1..3])}, rpm \in {RE([PKeys -> 1..3])}, lcm \in {RE([CKeys -> 1..3])}, rcm \in {RE([CKeys -> 1..3])} :
-       \E lnn \in {"AlterNN" \in Acts /\ RE(1..4) = 1}, rnn \in {"AlterNN" \in Acts /\ RE(1..4) = 1} :
+       \E lcol \in {RE([CKeys -> Cols])}, rcol \in {RE([CKeys -> Cols])} :
+       \E lnn \in {"AlterNN" \in Acts /\ RE(1..3) = 1}, rnn \in {"AlterNN" \in Acts /\ RE(1..3) = 1} :
        \E triple \in {Cardinality(Branches) > 1 /\ RE(1..3) # 1} :
           LET ks == SortInts(PKeys)
               bp == FixP(bpf, ks, {})
               bc == [k \in CKeys |-> FixCRow(bcf[k], bp, FALSE)]
               lp == FixP(Mix(bp, lpf, lpm), ks, {})
               rp == FixP(Mix(bp, rpf, rpm), ks, {})
-              lc == [k \in CKeys |-> FixCRow(Mix(bc, lcf, lcm)[k], lp, lnn)]
-              rc == [k \in CKeys |-> FixCRow(Mix(bc, rcf, rcm)[k], rp, rnn)]
+              lc == [k \in CKeys |-> FixCRow(MixC(bc, lcf, lcm, lcol)[k], lp, lnn)]
+              rc == [k \in CKeys |-> FixCRow(MixC(bc, rcf, rcm, rcol)[k], rp, rnn)]
               b0 == MkRoot(bp, bc, FALSE)  l == MkRoot(lp, lc, lnn)  r == MkRoot(rp, rc, rnn) IN
           /\ base' = b0
           /\ store' = [b \in Branches |-> IF ~triple THEN BranchAt(b0, FALSE) ELSE IF b = "main" THEN BranchAt(l, l # b0) ELSE BranchAt(r, r # b0)]
